@@ -159,7 +159,7 @@ class RTDC_HDF5(RTDCBase):
 
         config = Configuration()
         for key in h5attrs:
-            section, pname = key.split(":")
+            section, pname = key.split(":", 1)
             config[section][pname] = h5attrs[key]
         return config
 
